@@ -1,7 +1,7 @@
 //! C19 — k-mer / q-gram indexing and sparse chaining.
 //!
 //! ```text
-//! codes  <alpha hex> <q> <text hex>                        => w=<width> f=<codes> r=<codes>
+//! codes  <alpha hex> <q> <text hex> <gram/gram/…|->            => w=<width> f=<codes> r=<codes> x=<codes>
 //! idx    <alpha hex> <q> <max_count|max> <text hex> <q;q;…> => ok <res;res;…> | BUILDPANIC <class>
 //!        query: g:<gram hex> | m:<min_count>:<pattern hex> | e:<pattern hex>
 //! kmer   <k> <x hex> <y hex> <match_score> <gap_open> <gap_extend>
@@ -220,7 +220,31 @@ fn gen_codes(rng: &mut Rng, out: &mut Vec<String>) {
     if rng.chance(1, 4) {
         given.push(alpha[rng.below(alpha.len())]);
     }
-    out.push(format!("codes {} {} {}", hex(&given), q, hex(&text)));
+    // extra q-grams whose codes are requested: words over the lowest and the highest symbol (a width that is one bit
+    // short makes them collide), a few random ones, a few windows of the text again
+    let mut extras: Vec<Vec<u8>> = vec![];
+    let (lo, hi) = (alpha[0], alpha[alpha.len() - 1]);
+    for _ in 0..6 {
+        extras.push((0..q).map(|_| if rng.chance(1, 2) { lo } else { hi }).collect());
+    }
+    extras.push(vec![lo; q]);
+    extras.push(vec![hi; q]);
+    if alpha.len() > 2 {
+        let mid = alpha[alpha.len() / 2];
+        extras.push((0..q).map(|i| if i == 0 { mid } else { lo }).collect());
+        extras.push((0..q).map(|i| if i + 1 == q { mid } else { lo }).collect());
+    }
+    for _ in 0..3 {
+        extras.push(rng.seq(&alpha, q));
+    }
+    if text.len() >= q {
+        for _ in 0..2 {
+            let i = rng.below(text.len() - q + 1);
+            extras.push(text[i..i + q].to_vec());
+        }
+    }
+    let xs: Vec<String> = extras.iter().map(|g| hex(g)).collect();
+    out.push(format!("codes {} {} {} {}", hex(&given), q, hex(&text), xs.join("/")));
 }
 
 fn gen_idx(rng: &mut Rng, out: &mut Vec<String>) {
@@ -238,7 +262,7 @@ fn gen_idx(rng: &mut Rng, out: &mut Vec<String>) {
     }
     let q = if rng.chance(1, 5) { 1 + rng.below(qmax) } else { 1 + rng.below(qmax.min(4)) };
     let mut text = some_text(rng, &alpha, 60);
-    if !n.is_power_of_two() && rng.chance(3, 4) {
+    if !n.is_power_of_two() && rng.chance(1, 2) {
         tame(rng, &alpha, q, &mut text);
     }
     let mc = match rng.below(8) {
@@ -267,7 +291,7 @@ fn gen_idx(rng: &mut Rng, out: &mut Vec<String>) {
             }
             2..=4 => {
                 let mut p = pattern_for(rng, &alpha, q, &text);
-                if !n.is_power_of_two() && rng.chance(3, 4) {
+                if !n.is_power_of_two() && rng.chance(1, 2) {
                     tame(rng, &alpha, q, &mut p);
                 }
                 let minc = match rng.below(6) {
@@ -280,7 +304,7 @@ fn gen_idx(rng: &mut Rng, out: &mut Vec<String>) {
             }
             _ => {
                 let mut p = pattern_for(rng, &alpha, q, &text);
-                if !n.is_power_of_two() && rng.chance(3, 4) {
+                if !n.is_power_of_two() && rng.chance(1, 2) {
                     tame(rng, &alpha, q, &mut p);
                 }
                 qs.push(format!("e:{}", hex(&p)));
@@ -329,6 +353,20 @@ fn seq_pair(rng: &mut Rng) -> (Vec<u8>, Vec<u8>, usize) {
                 y.extend(rng.seq(&alpha, post));
                 y
             }
+            3 => {
+                // several mutated copies of a short prefix of x: one sequence much longer than the other
+                let l = rng.below(x.len().min(14) + 1);
+                let mut y = vec![];
+                for _ in 0..2 + rng.below(3) {
+                    y.extend(rng.mutate(&x[..l], &alpha, 10));
+                }
+                let xs = x[..l].to_vec();
+                let (a, b) = if rng.chance(1, 2) { (xs, y) } else { (y, xs) };
+                if naive_kmer_matches(&a, &b, k).len() <= 160 {
+                    return (a, b, k);
+                }
+                continue;
+            }
             _ => {
                 let rate = *rng.pick(&[3usize, 8, 15, 30]);
                 rng.mutate(&x, &alpha, rate)
@@ -355,7 +393,13 @@ fn show_pairs(v: &[(u32, u32)]) -> String {
 }
 
 fn match_list(rng: &mut Rng, k: usize) -> Vec<(u32, u32)> {
+    // the two coordinate ranges differ in half of the lists (a short sequence against a long one)
     let g = 3 + rng.below(40);
+    let (gx, gy) = match rng.below(4) {
+        0 => (g, 3 + rng.below(8)),
+        1 => (3 + rng.below(8), g),
+        _ => (g, g),
+    };
     let n = match rng.below(4) {
         0 => rng.below(4),
         1 | 2 => rng.below(13),
@@ -366,7 +410,7 @@ fn match_list(rng: &mut Rng, k: usize) -> Vec<(u32, u32)> {
         match rng.below(4) {
             // a diagonal run
             0 => {
-                let (x, y) = (rng.below(g) as u32, rng.below(g) as u32);
+                let (x, y) = (rng.below(gx) as u32, rng.below(gy) as u32);
                 let l = 1 + rng.below(2 * k + 3);
                 for t in 0..l as u32 {
                     v.push((x + t, y + t));
@@ -379,7 +423,7 @@ fn match_list(rng: &mut Rng, k: usize) -> Vec<(u32, u32)> {
                 let dy = (k as i64 + rng.range(-1, 2)).max(0) as u32;
                 v.push((x + dx, y + dy));
             }
-            _ => v.push((rng.below(g) as u32, rng.below(g) as u32)),
+            _ => v.push((rng.below(gx) as u32, rng.below(gy) as u32)),
         }
     }
     v.sort_unstable();
@@ -444,16 +488,16 @@ pub fn gen(tier: &str, rng: &mut Rng, out: &mut Vec<String>) {
     for _ in 0..600 * scale {
         gen_codes(rng, out);
     }
-    for _ in 0..500 * scale {
+    for _ in 0..600 * scale {
         gen_kmer(rng, out);
     }
-    for _ in 0..600 * scale {
+    for _ in 0..1500 * scale {
         gen_lcs(rng, out);
     }
-    for _ in 0..300 * scale {
+    for _ in 0..400 * scale {
         gen_sdp(rng, out);
     }
-    for _ in 0..300 * scale {
+    for _ in 0..400 * scale {
         gen_expand(rng, out);
     }
     if tier == "thorough" {
@@ -474,7 +518,8 @@ pub fn gen(tier: &str, rng: &mut Rng, out: &mut Vec<String>) {
                     for mc in ["max", "1"] {
                         out.push(format!("idx {} {} {} {} {}", hex(&alpha), q, mc, hex(t), qs.join(";")));
                     }
-                    out.push(format!("codes {} {} {}", hex(&alpha), q, hex(t)));
+                    let xs: Vec<String> = grams.iter().map(|g| hex(g)).collect();
+                    out.push(format!("codes {} {} {} {}", hex(&alpha), q, hex(t), xs.join("/")));
                 }
             }
         }
@@ -521,7 +566,7 @@ pub fn exec(toks: &[&str]) -> Result<String, String> {
     }
     match toks[0] {
         "codes" => {
-            if toks.len() != 4 {
+            if toks.len() != 5 {
                 return Err("arity".into());
             }
             let alpha = unhex(toks[1])?;
@@ -531,12 +576,22 @@ pub fn exec(toks: &[&str]) -> Result<String, String> {
                 return Err("domain".into());
             }
             check_word(&alpha, &text)?;
+            let mut extras = vec![];
+            for g in split_list(toks[4], '/') {
+                let g = unhex(g)?;
+                if g.len() != q as usize {
+                    return Err("gram length".into());
+                }
+                check_word(&alpha, &g)?;
+                extras.push(g);
+            }
             let a = Alphabet::new(&alpha);
             let ranks = RankTransform::new(&a);
             let w = ranks.get_width();
             let f: Vec<usize> = ranks.qgrams(q, &text).collect();
             let r: Vec<usize> = ranks.rev_qgrams(q, &text).collect();
-            Ok(format!("w={} f={} r={}", w, join(&f, ","), join(&r, ",")))
+            let x: Vec<usize> = extras.iter().map(|g| ranks.qgrams(q, g).next().unwrap()).collect();
+            Ok(format!("w={} f={} r={} x={}", w, join(&f, ","), join(&r, ","), join(&x, ",")))
         }
         "idx" => {
             if toks.len() != 6 {
